@@ -501,6 +501,8 @@ def run(chk):
     chk.guard(rule_r5, chk)
     chk.guard(rule_r6, chk)
     chk.guard(rule_r8, chk)
+    from .. import args as _args
+    chk.guard(_args.apply, chk, "C03-R90", {'fords'}, 1)
     chk.assumptions = [
         "equality with exact Gaussian conditioning is numerical: NOT decided (only the algebraic/structural clauses above)",
         "diffuse initialisation and the smoother algebra beyond shapes are not decided",
